@@ -1,5 +1,8 @@
 import GV.Model.Header
 import GV.Model.HeaderSym
+import GV.Gen.HeaderFacts
+import GV.Gen.VrfConsts
+import GV.Gen.KesConsts
 /-!
 C40 — Produced headers validate, and tampered ones do not.
 
@@ -296,6 +299,50 @@ theorem opcert_binds
   have := (hsinj _ _ _ _ hσ).2
   obtain ⟨a, b, d⟩ := hsg _ _ _ _ _ _ this
   exact ⟨a.symm, b.symm, d.symm⟩
+
+/-! ### regenerated source facts
+
+The order of the ten checks of `ValidateHeader`, the comparisons of the window / ordering checks,
+every byte-length comparison of validator and builder and the size constants are read off
+consensus/validate.go, consensus/block.go, ledger/verify_kes.go, vrf and kes on every run
+(extract/facts_g8.go); the model was written against exactly these. -/
+theorem source_facts :
+    GV.Gen.HeaderFacts.checks =
+      ["validateSlotOrdering", "validateBlockNumber", "validatePrevHash", "validateVRFProof",
+       "validateLeadership", "validateNonceVRFProof", "validateKESPeriod", "validateKESSignature",
+       "validateOpCertSignature", "validateVRFKeyRegistration"] ∧
+    GV.Gen.HeaderFacts.kesPeriodConds =
+      ["v.slotsPerKESPeriod == 0", "currentKESPeriod < opCertKESPeriod",
+       "evolutionPeriod >= v.maxKESEvolutions"] ∧
+    GV.Gen.HeaderFacts.slotConds = ["input.Slot <= input.PrevSlot"] ∧
+    GV.Gen.HeaderFacts.blockNoConds = ["input.BlockNumber != expectedBlockNumber"] ∧
+    GV.Gen.HeaderFacts.prevHashConds =
+      ["input.BlockNumber > 0 && len(input.PrevHeaderHash) == 0",
+       "len(input.PrevHeaderHash) > 0 && !bytes.Equal(input.PrevHash, input.PrevHeaderHash)"] ∧
+    GV.Gen.HeaderFacts.kesComponentsConds =
+      ["slotsPerKesPeriod == 0", "len(signature) != kes.CardanoKesSignatureSize",
+       "currentKesPeriod < kesPeriod"] ∧
+    GV.Gen.HeaderFacts.verifyCertifiedVRF_lens =
+      [("epochNonce", "!=", "32"), ("vrfKey", "!=", "vrf.PublicKeySize"),
+       ("proof", "!=", "vrf.ProofSize"), ("output", "!=", "vrf.OutputSize")] ∧
+    GV.Gen.HeaderFacts.validateKESSignature_lens =
+      [("input.HeaderBodyCbor", "==", "0"), ("input.KesSignature", "!=", "kes.CardanoKesSignatureSize"),
+       ("input.OpCertHotVkey", "!=", "kes.PublicKeySize")] ∧
+    GV.Gen.HeaderFacts.validateOpCertSignature_lens =
+      [("input.IssuerVkey", "==", "0"), ("input.IssuerVkey", "!=", "ed25519.PublicKeySize"),
+       ("input.OpCertSignature", "!=", "ed25519.SignatureSize")] ∧
+    GV.Gen.HeaderFacts.validateVRFKeyRegistration_lens =
+      [("input.RegisteredVrfKeyHash", "==", "0"), ("input.VrfKey", "!=", "vrf.PublicKeySize")] ∧
+    GV.Gen.HeaderFacts.buildHeader_lens =
+      [("input.PrevHash", "==", "0"), ("input.EpochNonce", "==", "0"), ("input.BlockBodyHash", "==", "0"),
+       ("b.issuerVkey", "!=", "32"), ("input.PrevHash", "!=", "32"), ("input.EpochNonce", "!=", "32"),
+       ("input.BlockBodyHash", "!=", "32"), ("vrfPubKey", "!=", "vrf.PublicKeySize"),
+       ("b.opCert.HotVkey", "!=", "32"), ("b.opCert.Signature", "!=", "64"), ("kesPublicKey", "!=", "32"),
+       ("nonceVrfProof", "!=", "vrf.ProofSize"), ("nonceVrfOutput", "!=", "vrf.OutputSize")] ∧
+    GV.Gen.VrfConsts.proofSize = 80 ∧ GV.Gen.VrfConsts.outputSize = 64 ∧
+    GV.Gen.VrfConsts.publicKeySize = 32 ∧ GV.Gen.KesConsts.cardanoKesSignatureSize = 448 ∧
+    GV.Gen.KesConsts.publicKeySize = 32 := by
+  decide
 
 /-! ### non-vacuity on the symbolic instance -/
 open GV.Model.HeaderSym
